@@ -3,6 +3,10 @@
 package config
 
 import (
+	"strings"
+
+	"github.com/spf13/cobra"
+
 	v1 "github.com/fatedier/frp/pkg/config/v1"
 	"github.com/fatedier/frp/pkg/config/v1/validation"
 	"github.com/fatedier/frp/pkg/msg"
@@ -46,4 +50,76 @@ func verif_NewProxyConfigurerFromMsg(m *msg.NewProxy, serverCfg *v1.ServerConfig
 			verif.Ensures(!validation.VerifInSubdomainSpace(v.CustomDomains[k], serverCfg.SubDomainHost), "tcpmux_domains_outside_subdomain_space")
 		}
 	}
+}
+
+// RegisterServerConfigFlags, the frps command line (C18 "a definition means the
+// same in every format": a flag sets the field the configuration file key of
+// the same meaning sets): golden table flag name -> field, one registration
+// per flag, bound to that field and to no other. (Generated from the pinned
+// source by the same pattern as the wire-format vectors of pkg/msg.)
+//
+//verif:contract ~/pkg/config.RegisterServerConfigFlags
+//verif:props C18
+//verif:kinds post
+func verif_RegisterServerConfigFlags(cmd *cobra.Command, c *v1.ServerConfig) {
+	verif.ResetEvents()
+	RegisterServerConfigFlags(cmd, c)
+	verif.Ensures(verif.CallCountWith("FlagSet).StringVarP", 2, "bind_addr") == 1 && verif.CallCountWith2("FlagSet).StringVarP", 1, &c.BindAddr, 2, "bind_addr") == 1, "flag_bind_addr_sets_BindAddr")
+	verif.Ensures(verif.CallCountWith("FlagSet).IntVarP", 2, "bind_port") == 1 && verif.CallCountWith2("FlagSet).IntVarP", 1, &c.BindPort, 2, "bind_port") == 1, "flag_bind_port_sets_BindPort")
+	verif.Ensures(verif.CallCountWith("FlagSet).IntVarP", 2, "kcp_bind_port") == 1 && verif.CallCountWith2("FlagSet).IntVarP", 1, &c.KCPBindPort, 2, "kcp_bind_port") == 1, "flag_kcp_bind_port_sets_KCPBindPort")
+	verif.Ensures(verif.CallCountWith("FlagSet).IntVarP", 2, "quic_bind_port") == 1 && verif.CallCountWith2("FlagSet).IntVarP", 1, &c.QUICBindPort, 2, "quic_bind_port") == 1, "flag_quic_bind_port_sets_QUICBindPort")
+	verif.Ensures(verif.CallCountWith("FlagSet).StringVarP", 2, "proxy_bind_addr") == 1 && verif.CallCountWith2("FlagSet).StringVarP", 1, &c.ProxyBindAddr, 2, "proxy_bind_addr") == 1, "flag_proxy_bind_addr_sets_ProxyBindAddr")
+	verif.Ensures(verif.CallCountWith("FlagSet).IntVarP", 2, "vhost_http_port") == 1 && verif.CallCountWith2("FlagSet).IntVarP", 1, &c.VhostHTTPPort, 2, "vhost_http_port") == 1, "flag_vhost_http_port_sets_VhostHTTPPort")
+	verif.Ensures(verif.CallCountWith("FlagSet).IntVarP", 2, "vhost_https_port") == 1 && verif.CallCountWith2("FlagSet).IntVarP", 1, &c.VhostHTTPSPort, 2, "vhost_https_port") == 1, "flag_vhost_https_port_sets_VhostHTTPSPort")
+	verif.Ensures(verif.CallCountWith("FlagSet).Int64VarP", 2, "vhost_http_timeout") == 1 && verif.CallCountWith2("FlagSet).Int64VarP", 1, &c.VhostHTTPTimeout, 2, "vhost_http_timeout") == 1, "flag_vhost_http_timeout_sets_VhostHTTPTimeout")
+	verif.Ensures(verif.CallCountWith("FlagSet).StringVarP", 2, "dashboard_addr") == 1 && verif.CallCountWith2("FlagSet).StringVarP", 1, &c.WebServer.Addr, 2, "dashboard_addr") == 1, "flag_dashboard_addr_sets_WebServer_Addr")
+	verif.Ensures(verif.CallCountWith("FlagSet).IntVarP", 2, "dashboard_port") == 1 && verif.CallCountWith2("FlagSet).IntVarP", 1, &c.WebServer.Port, 2, "dashboard_port") == 1, "flag_dashboard_port_sets_WebServer_Port")
+	verif.Ensures(verif.CallCountWith("FlagSet).StringVarP", 2, "dashboard_user") == 1 && verif.CallCountWith2("FlagSet).StringVarP", 1, &c.WebServer.User, 2, "dashboard_user") == 1, "flag_dashboard_user_sets_WebServer_User")
+	verif.Ensures(verif.CallCountWith("FlagSet).StringVarP", 2, "dashboard_pwd") == 1 && verif.CallCountWith2("FlagSet).StringVarP", 1, &c.WebServer.Password, 2, "dashboard_pwd") == 1, "flag_dashboard_pwd_sets_WebServer_Password")
+	verif.Ensures(verif.CallCountWith("FlagSet).BoolVarP", 2, "enable_prometheus") == 1 && verif.CallCountWith2("FlagSet).BoolVarP", 1, &c.EnablePrometheus, 2, "enable_prometheus") == 1, "flag_enable_prometheus_sets_EnablePrometheus")
+	verif.Ensures(verif.CallCountWith("FlagSet).StringVarP", 2, "log_file") == 1 && verif.CallCountWith2("FlagSet).StringVarP", 1, &c.Log.To, 2, "log_file") == 1, "flag_log_file_sets_Log_To")
+	verif.Ensures(verif.CallCountWith("FlagSet).StringVarP", 2, "log_level") == 1 && verif.CallCountWith2("FlagSet).StringVarP", 1, &c.Log.Level, 2, "log_level") == 1, "flag_log_level_sets_Log_Level")
+	verif.Ensures(verif.CallCountWith("FlagSet).Int64VarP", 2, "log_max_days") == 1 && verif.CallCountWith2("FlagSet).Int64VarP", 1, &c.Log.MaxDays, 2, "log_max_days") == 1, "flag_log_max_days_sets_Log_MaxDays")
+	verif.Ensures(verif.CallCountWith("FlagSet).BoolVarP", 2, "disable_log_color") == 1 && verif.CallCountWith2("FlagSet).BoolVarP", 1, &c.Log.DisablePrintColor, 2, "disable_log_color") == 1, "flag_disable_log_color_sets_Log_DisablePrintColor")
+	verif.Ensures(verif.CallCountWith("FlagSet).StringVarP", 2, "token") == 1 && verif.CallCountWith2("FlagSet).StringVarP", 1, &c.Auth.Token, 2, "token") == 1, "flag_token_sets_Auth_Token")
+	verif.Ensures(verif.CallCountWith("FlagSet).StringVarP", 2, "subdomain_host") == 1 && verif.CallCountWith2("FlagSet).StringVarP", 1, &c.SubDomainHost, 2, "subdomain_host") == 1, "flag_subdomain_host_sets_SubDomainHost")
+	verif.Ensures(verif.CallCountWith("FlagSet).Int64VarP", 2, "max_ports_per_client") == 1 && verif.CallCountWith2("FlagSet).Int64VarP", 1, &c.MaxPortsPerClient, 2, "max_ports_per_client") == 1, "flag_max_ports_per_client_sets_MaxPortsPerClient")
+	verif.Ensures(verif.CallCountWith("FlagSet).BoolVarP", 2, "tls_only") == 1 && verif.CallCountWith2("FlagSet).BoolVarP", 1, &c.Transport.TLS.Force, 2, "tls_only") == 1, "flag_tls_only_sets_Transport_TLS_Force")
+}
+
+// LoadConfigure, the strict switch (C18: unknown keys are rejected - or not - in
+// the same way whatever the file format): the typed proxy / visitor / plugin
+// decoders cannot see the parent decoder's options, they read the package-level
+// switch of pkg/config/v1; whatever the format of the input, that switch holds
+// the caller's choice when LoadConfigure returns (it is set before any decoder
+// runs and is not changed afterwards).
+//
+//verif:contract ~/pkg/config.LoadConfigure
+//verif:props C18
+//verif:kinds post
+func verif_LoadConfigure(b []byte, c any, strict bool) {
+	verif.ResetEvents()
+	_ = LoadConfigure(b, c, strict)
+	verif.Ensures(v1.DisallowUnknownFields == strict, "strict_switch_holds_the_callers_choice_for_every_format")
+}
+
+// The environment snapshot the template layer reads ({{ .Envs.X }}): every
+// NAME=value entry is stored under NAME with everything after the first '='
+// as its value (values may contain '=': padded base64, query strings).
+//
+//verif:loopbody ~/pkg/config.init#1 1 check=verifEnvSnapshot args=env,pair
+func verifEnvSnapshot(env string, pair []string) bool {
+	want := strings.SplitN(env, "=", 2)
+	if len(want) != 2 {
+		return true
+	}
+	return len(pair) == 2 && pair[0] == want[0] && pair[1] == want[1] && verif.Has(glbEnvs, want[0]) && glbEnvs[want[0]] == want[1]
+}
+
+//verif:contract ~/pkg/config.init#1
+//verif:props C18
+//verif:kinds loop,post
+func verif_config_init() {
+	verif.ResetEvents()
+	verif.CallTarget()
 }
